@@ -11,7 +11,9 @@ for l in open("/verif/properties.jsonl"):
 FILES = {}
 for pid, p in P.items():
     FILES[pid] = ", ".join(p["anchors"]["files"])
-STYLE = """Prefer changes in which TWO features interact (logout x discovery, idle or absolute timeout x refresh, access-token forwarding x a provider that omits a member, trigger rules x the callback or logout path, Redis x memory store, several filters or chains x one shared component, discovery x explicit endpoints, cookie prefix x several cookies), or that sit on a boundary value (exactly at a limit, empty-but-present, zero, first vs last of several), or that only show from the third request on, or in a response field / store field / log-free side effect that a checker might not look at, or under two concurrent requests. Avoid anything a single happy-path request exposes, and avoid re-using a mechanism from the list above."""
+STYLE4 = """Prefer changes in which TWO features interact (logout x discovery, idle or absolute timeout x refresh, access-token forwarding x a provider that omits a member, trigger rules x the callback or logout path, Redis x memory store, several filters or chains x one shared component, discovery x explicit endpoints, cookie prefix x several cookies), or that sit on a boundary value (exactly at a limit, empty-but-present, zero, first vs last of several), or that only show from the third request on, or in a response field / store field / log-free side effect that a checker might not look at, or under two concurrent requests. Avoid anything a single happy-path request exposes, and avoid re-using a mechanism from the list above."""
+STYLE5 = """Look away from the most obvious function. Prefer changes in helper packages and wiring (internal/http helpers, internal/server start-up and interceptors, cmd/main.go wiring of shared components, config defaults and proto getters, clock and duration arithmetic: units, truncation, integer overflow, zero vs unset), in error and cancellation paths (context cancelled mid-call, a store or provider error on the SECOND of two calls, partial writes), in behaviour that depends on request metadata a checker may hold constant (scheme, host with or without port, header casing, several values of one header, HTTP method, empty path), or in state that survives from one request to a later one in the same process. Avoid anything a single happy-path request exposes, and avoid re-using a mechanism from the list above."""
+STYLE = STYLE5 if rnd >= "5" else STYLE4
 for pid in props:
     p = P[pid]
     out = "/tmp/out%s-%s" % (rnd, pid)
